@@ -154,6 +154,20 @@ int main()
           try { for (auto c : seq) j.add(show(c)); } catch (const Overrun &) { return "overrun " + j.str(); }
           return j.str();
         }
+        if (op == "itb2" || op == "itb3") {
+          // the backward walk: for (it = end(); it != begin(); ) { --it; visit(*it); }
+          std::string out;
+          if (op == "itb2") {
+            index_sequence_2D seq(vec_t<size_t, 2>(U(w[1]), U(w[2])));
+            Joiner j((ull)U(w[1]) * U(w[2]) + 2);
+            try { for (auto it = seq.end(); it != seq.begin();) { --it; j.add(show(*it)); } } catch (const Overrun &) { return "overrun " + j.str(); }
+            return j.str();
+          }
+          index_sequence_3D seq(vec_t<size_t, 3>(U(w[1]), U(w[2]), U(w[3])));
+          Joiner j((ull)U(w[1]) * U(w[2]) * U(w[3]) + 2);
+          try { for (auto it = seq.end(); it != seq.begin();) { --it; j.add(show(*it)); } } catch (const Overrun &) { return "overrun " + j.str(); }
+          return j.str();
+        }
         if (op == "itp2") {
           vec_t<size_t, 2> d(U(w[1]), U(w[2])), o(U(w[2]), U(w[1]));
           return iterProtocol(index_sequence_2D(d), index_sequence_2D(o), d, o, U(w[3]));
